@@ -355,6 +355,8 @@ def m_str(x=''):
     if isinstance(x, SymInt): return SymStr([Dec(x)])
     if isinstance(x, SymStr): return x
     if isinstance(x, SymBool): raise Unsupported('str of symbolic bool')
+    if not isinstance(x, (str, int, float, bytes, tuple, list, dict, type(None), type)) and type(x).__str__ is not object.__str__:
+        return type(x).__str__(x)
     return str(x)
 
 
@@ -394,7 +396,10 @@ def sym_fmt(f, args):
     """'fmt' % args  with possibly symbolic operands -> rope (only %d %u %i %s are rendered)."""
     at = args if isinstance(args, tuple) else (args,)
     if not any(is_sym(a) for a in at):
-        return f % args
+        try:
+            return f % args
+        except TypeError as e:
+            if 'returned non-string' not in str(e): raise
     import re
     ps = []; pos = 0; ai = 0
     for m in re.finditer(r'%([-#0 +]*\d*(?:\.\d+)?)([diuscrxXofeEgG%])', f):
@@ -407,6 +412,8 @@ def sym_fmt(f, args):
             elif m.group(2) == 's' and not m.group(1) and isinstance(a, SymStr): ps.append(a)
             elif m.group(2) == 's' and not m.group(1) and isinstance(a, SymInt): ps.append(Dec(a))
             else: ps.append('<sym:%s>' % m.group(2))
+        elif m.group(2) == 's' and not m.group(1) and not isinstance(a, (str, int, float, bytes, tuple, list, dict, type(None))):
+            ps.append(type(a).__str__(a))        # user __str__ may itself return a rope
         else:
             ps.append(('%' + m.group(1) + m.group(2)) % (a,))
     ps.append(f[pos:])
@@ -670,8 +677,14 @@ def _select(lst, i):
             for k in range(len(vals) - 2, -1, -1):
                 r = ite(i == i.lo + k, vals[k], r)
             return r
-        raise Unsupported('symbolic index into a heterogeneous list')
-    return sel(sub)
+        return None
+    r = sel(sub)
+    if r is None:
+        # arbitrary objects: case split on the index (every case is explored)
+        for k in range(len(sub) - 1):
+            if fork(i.e == i.lo + k): return sub[k]
+        return sub[-1]
+    return r
 
 
 # --------------------------------------------------------------------------- AST instrumentation
@@ -702,6 +715,8 @@ class _Tx(ast.NodeTransformer):
         self.generic_visit(n)
         if isinstance(n.op, ast.Mod) and isinstance(n.left, ast.Constant) and isinstance(n.left.value, str):
             return ast.copy_location(ast.Call(ast.Name('__sym_fmt__', ast.Load()), [n.left, n.right], []), n)
+        if isinstance(n.op, ast.Mod) and not isinstance(n.left, ast.Constant):
+            return ast.copy_location(ast.Call(ast.Name('__sym_mod__', ast.Load()), [n.left, n.right], []), n)
         return n
 
 
@@ -716,6 +731,11 @@ def sym_in(x, c):
             r = [core.eq(x, e) for e in c if e is not None]
             return core.bor(*r) if r else False
     return x in c
+
+
+def sym_mod(a, b):
+    if isinstance(a, str): return sym_fmt(a, b)
+    return a % b
 
 
 def sym_not(b):
@@ -747,7 +767,7 @@ class _Finder(importlib.abc.MetaPathFinder, importlib.abc.Loader):
         mod.__file__ = p
         src = open(p).read()
         if self.instrument:
-            mod.__dict__.update(__sym_call__=sym_call, __sym_getitem__=sym_getitem, __sym_fmt__=sym_fmt, __sym_in__=sym_in, __sym_not__=sym_not)
+            mod.__dict__.update(__sym_call__=sym_call, __sym_getitem__=sym_getitem, __sym_fmt__=sym_fmt, __sym_in__=sym_in, __sym_not__=sym_not, __sym_mod__=sym_mod)
             code = instrument_source(src, p)
         else:
             code = compile(src, p, 'exec')
